@@ -202,7 +202,7 @@ impl Check for Registries {
         true
     }
     fn probes(&self, _prop: &str) -> std::vec::Vec<&'static str> {
-        vec!["probe.bucket_boundary_crossed", "probe.issuer_limit_reached", "probe.registry_limit_reached", "probe.topic_limit_reached", "probe.keys_per_topic_limit_reached", "probe.full_topic_existing_key_again"]
+        vec!["probe.bucket_boundary_crossed", "probe.issuer_limit_reached", "probe.registry_limit_reached", "probe.topic_limit_reached", "probe.keys_per_topic_limit_reached", "probe.full_topic_existing_key_again", "probe.token_limit_reached", "probe.token_limit_reached_by_batch"]
     }
     fn generate(&self, rng: &mut Rng, tier: Tier) -> (Cfg, std::vec::Vec<Step>) {
         let kind = *rng.pick(&[Kind::Docs, Kind::Binder, Kind::Cti, Kind::Keys]);
@@ -221,6 +221,28 @@ impl Check for Registries {
         let mut topics: BTreeSet<u32> = BTreeSet::new();
         let mut triples: BTreeSet<(u32, u32, u32)> = BTreeSet::new();
         let focus_key = rng.below(3) as u32;
+        // capacity scenario for the token binder (rare, expensive): fill to MAX_TOKENS = 10 000 through the batch path, reach the
+        // limit once through the single path and once — exactly — through the batch path, with refusals one past it
+        if kind == Kind::Binder && big && rng.below(if tier == Tier::Quick { 60 } else { 25 }) == 0 {
+            let cfg = Cfg { kind, universe: 10_100 };
+            let mut steps = vec![];
+            let mut next = 0u32;
+            let mut batch = |n: u32, next: &mut u32| { let ts: std::vec::Vec<u32> = (*next..*next + n).collect(); *next += n; Step::BindMany { ts } };
+            for _ in 0..49 { steps.push(batch(200, &mut next)); }
+            steps.push(batch(199, &mut next));                 // 9 999
+            steps.push(Step::Bind { t: 10_050 });              // 10 000 through the single path
+            steps.push(Step::Bind { t: 10_051 });              // refused
+            steps.push(batch(1, &mut next));                   // refused
+            steps.push(Step::Unbind { t: 3 + rng.below(9_000) as u32 });
+            steps.push(Step::Unbind { t: 10_050 });
+            steps.push(batch(3, &mut next));                   // 10 001: refused
+            next -= 3;
+            steps.push(batch(2, &mut next));                   // exactly 10 000 through the batch path: must be admitted
+            steps.push(batch(1, &mut next));                   // refused
+            steps.push(Step::Unbind { t: 7 });
+            steps.push(Step::Bind { t: 10_052 });
+            return (cfg, steps);
+        }
         // limit scenario for the trusted-issuer registry (a quarter of its big runs): MAX_ISSUERS issuers, one more refused,
         // one removed, another admitted
         if kind == Kind::Cti && big && rng.chance(25) {
@@ -474,6 +496,7 @@ impl Check for Registries {
                         return Err(violation("binder.getters_eq_model", "count", i, format!("count {cnt} model {}", m.len())));
                     }
                     if cnt > 100 { st.hit("probe.bucket_boundary_crossed"); }
+                    if cnt == 10_000 { st.hit(if matches!(s, Step::BindMany { .. }) { "probe.token_limit_reached_by_batch" } else { "probe.token_limit_reached" }); }
                     let all = c.all();
                     let have: BTreeSet<Address> = all.iter().collect();
                     let want: BTreeSet<Address> = m.iter().map(|k| t(*k)).collect();
